@@ -108,6 +108,14 @@ def reuse_programs():
                     'Signal r = (x < 7) + (7 >= x) + (x <= 7) + (7 > x);\nSignal u = ((x < y) : 5) + ((y >= x) : 5);\n')
     # an int variable initialised by a constant expression is itself a constant (signal-literal values need integers)
     yield "dag17", ('int x = 7;\nint y = x * 3;\nSignal s = ("signal-A", y);\nSignal a = ("signal-B", 2);\nSignal r = s + a;\nSignal q = a * (y - 1);\n')
+    # wire isolation (the former finding K7): producers shared by several combinators, three same-named producers on one network, untyped values reused everywhere
+    yield "iso-three-same-named", ('Signal s = ("signal-A", 6);\nSignal t = ("signal-B", 4);\nSignal u = ("signal-B", 9);\nSignal v = ("signal-B", 2);\n'
+                                   'Signal r1 = s * u;\nSignal r2 = s * t;\nSignal r3 = s * v;\n')
+    yield "iso-reused-operand", ('Signal x = ("signal-A", 6);\nSignal y = ("signal-B", 4);\nSignal r = x - x * y;\nSignal q = (x + y) * (x - y) + x;\n')
+    yield "iso-untyped-everywhere", ('Signal a = 100;\nSignal b = 110;\nSignal c = 120;\nSignal p1 = a + b * c;\nSignal p2 = a > 0 && b > 0 || c > 0;\n'
+                                     'Signal n = ((a + b) * (c - 1)) / 2 | "iron-plate";\nSignal m = (a + (b | "iron-plate") + (c | "iron-plate") + (a * 2)) | "iron-ore";\n')
+    yield "iso-lamp-next-to-combinator", ('Signal s = ("signal-A", 6);\nSignal t = ("signal-B", 4);\nSignal u = ("signal-B", 9);\nSignal r1 = s * u;\n'
+                                          'Entity l = place("small-lamp", 0, 0);\nl.enable = s + t;\n')
     # a signal literal whose VALUE is only known at run time carries that value (not 0)
     yield "dag18", ('Signal x = ("signal-X", 5);\nSignal r = ("signal-A", x + 1);\nSignal q = r * 2;\n')
     yield "dag18b", ('Signal x = ("signal-A", 5);\nSignal y = ("iron-plate", 2);\nSignal r = ("signal-A", x);\nSignal q = (y.type, x - 1);\n')
@@ -250,6 +258,8 @@ def c02_scope(tier):
     P.append(("gate-two-conditions", B1 + S + M + "Bundle g = (s > m) : b;\nBundle h = (m > 1) : b;\n"))
     P.append(("gate-condition-own-member", B1 + 'Bundle g = (b["signal-A"] > 2) : b;\nSignal c = b["signal-B"];\nBundle h = (c > 2) : b;\nBundle k = b * c;\n'))
     P.append(("gate-any-other-bundle", B1 + S + 'Bundle b2 = { ("signal-F", 7) };\nBundle g = (any(b) > s) : b2;\n'))
+    # members of ONE bundle wire read by two combinators of which one feeds the other (a loop through the shared wire before ada0082)
+    P.append(("members-feed-each-other", B1 + 'Signal r = b["signal-A"] - b["signal-B"] * b["iron-plate"];\nSignal q = (b["signal-A"] + 1) * b["signal-A"];\n'))
     P.append(("all-sig-of-each", B1 + S + "Signal r = all(b * 2) >= s;\nSignal q = any(b + 1) < s;\n"))
     P.append(("all-sig-member-name", B1 + M + "Signal r = all(b) > m;\n"))
     V = 'Signal v = ("signal-V", 9);\n'
